@@ -52,7 +52,10 @@ class C10(Check):
         for i, ch in enumerate(chunks(sig, 8 if tier == "quick" else 32)):
             us.append(sigma_unit(ch, i, extra=conserve_extra, tag="C10"))
         fam = [s for s in expr.F0() + expr.generate(seed, 60 if tier != "quick" else 25) if t_only(s)]
-        us += [family_unit(s) for s in fam]
+        fus = [family_unit(s) for s in fam]
+        for u, s in zip(fus, fam):
+            u.optional = s.name.startswith("gen")
+        us += fus
         us.append(first_reaction_unit(3, 2, conserve=True, asserts=("walk", "conserve"), tag="C10"))
         us.append(tau_leap_unit(2, 2, True, conserve=True, asserts=("walk", "conserve"), tag="C10"))
         us.append(tau_leap_unit(2, 1, False, conserve=True, asserts=("walk", "conserve"), tag="C10"))
